@@ -94,6 +94,8 @@ class _Printer:
             return body + q + ("?" if r["lazy"] else "")
         if k == "at":
             return "^" if r["at"] == "start" else "$"
+        if k == "raw":
+            return "".join(chr(c) for c in r["text"])
         if k == "uns":
             kind = r["kind"]
             b = r["body"]
